@@ -129,6 +129,10 @@ def run(ck):
     for name, a, b, known in cm.arc_families() + cm.ellipse_families():
         ck.case(fp=('arc', name, repr(a), repr(b)), nontrivial=True)
         pair_case(ck, name, a, b, known, 1e-3, {'family': name, 'a': repr(a), 'b': repr(b)})
+        for tag_, f_ in (('x100', lambda sg: sg.scaled(100)), ('moved by 3000-2000j', lambda sg: sg.translated(3000 - 2000j)), ('x0.05', lambda sg: sg.scaled(0.05))):
+            a2, b2 = f_(a), f_(b)
+            ck.case(fp=('arc', name, tag_), nontrivial=True)
+            pair_case(ck, name + ' ' + tag_, a2, b2, [(k[0], k[1], a2.point(k[0])) for k in known], 1e-3, {'family': name, 'variant': tag_})
     # a quadratic whose crossing polynomial with an axis-parallel line has no linear term (start and control at the same offset from the line)
     for qz, lz in (((0 + 1j, 1 + 1j, 2 - 1j), (-1 + 0j, 3 + 0j)), ((1 + 0j, 1 + 2j, -3 + 4j), (0 - 1j, 0 + 5j)), ((2 + 3j, 5 + 3j, 8 - 5j), (0 + 1j, 9 + 1j)), ((0 - 2j, 3 - 2j, 6 + 2j), (7 + 0j, -1 + 0j))):
         qd, ln = sp.QuadraticBezier(*qz), sp.Line(*lz)
